@@ -18,7 +18,10 @@ def one(d):
 
 dirs = sorted(os.path.join('refactorings', x) for x in os.listdir(os.path.join(HERE, 'refactorings'))
               if os.path.isfile(os.path.join(HERE, 'refactorings', x, 'meta.json')))
-jobs = int(sys.argv[1]) if len(sys.argv) > 1 else 8
+jobs = int(sys.argv[1]) if len(sys.argv) > 1 and sys.argv[1].isdigit() else 8
+only = tuple(a for a in sys.argv[1:] if not a.isdigit())     # optional ids: refresh only these
+if only:
+    dirs = [d for d in dirs if os.path.basename(d) in only]
 silent = 0
 with ThreadPoolExecutor(jobs) as ex:
     for d, fired in ex.map(one, dirs):
